@@ -371,6 +371,123 @@ class NormalForm(Contract):
         return [("len", acc.n == st.k), ("pointwise", z3.ForAll([i], z3.Implies(z3.And(0 <= i, i < st.k), z3.And(ev(at(acc, i)) == ev(at(K, i)), z3.Implies(uses(at(acc, i)), uses(at(K, i)))))))]
 
 
+# ---------------------------------------------------------------- the distributive branch of cnf / dnf
+from pyvc.values import Shape   # noqa: E402
+
+MListDT = z3.Datatype("MarkerList")
+MListDT.declare("mk", ("items", z3.ArraySort(z3.IntSort(), MK)), ("len", z3.IntSort()))
+MListDT = MListDT.create()
+
+
+class MListShape(Shape):
+    """a list / tuple of markers as one value (element of a list of lists)"""
+    sort = MListDT
+
+    def __init__(self, th):
+        self.th = th
+
+    def fresh(self, name):
+        return self.dec(z3.Const(fresh_name(name), MListDT))
+
+    def enc(self, v):
+        if isinstance(v, AList):
+            return MListDT.mk(v.arr, v.n)
+        if isinstance(v, (list, tuple)) and len(v) == 1:
+            return MListDT.mk(z3.K(z3.IntSort(), self.th.shape.enc(v[0])), z3.IntVal(1))
+        if z3.is_expr(v) and v.sort() == MListDT:
+            return v
+        raise OutsideSubset(f"not a list of markers: {v!r}")
+
+    def dec(self, t):
+        return AList(self.th.shape, MListDT.items(t), z3.IntVal(0), MListDT.len(t), True)
+
+
+def mem_ml(t, x):
+    i = z3.Int(fresh_name("pm"))
+    return z3.Exists([i], z3.And(0 <= i, i < MListDT.len(t), z3.Select(MListDT.items(t), i) == x))
+
+
+def all_ml(t, f):
+    i = z3.Int(fresh_name("pa"))
+    return z3.ForAll([i], z3.Implies(z3.And(0 <= i, i < MListDT.len(t)), f(z3.Select(MListDT.items(t), i))))
+
+
+def any_ml(t, f):
+    i = z3.Int(fresh_name("pe"))
+    return z3.Exists([i], z3.And(0 <= i, i < MListDT.len(t), f(z3.Select(MListDT.items(t), i))))
+
+
+def product_contract(th):
+    """A-STDLIB, itertools.product(*lists) over an abstract list of marker lists: every tuple has one member of each list in order (P1); the
+    product is empty iff some list is (P0); and it contains the tuple picked by a choice function - stated for the two choice functions the
+    distributive law needs: `a member that evaluates false if there is one` and `a member that evaluates true if there is one` (P2, instances of
+    'the product contains every choice')."""
+    mlshape = th.mlshape
+
+    def product(ex, lists):
+        P = ListS(mlshape, is_tuple=False).fresh("product")
+        K = lists.n
+        j, k = z3.Int(fresh_name("pj")), z3.Int(fresh_name("pk"))
+        Lk = z3.Select(lists.arr, k)
+        Pj = z3.Select(P.arr, j)
+        ex.assume(P.n >= 0)
+        ex.assume(z3.ForAll([j], z3.Implies(z3.And(0 <= j, j < P.n), z3.And(MListDT.len(Pj) == K,
+                  z3.ForAll([k], z3.Implies(z3.And(0 <= k, k < K), mem_ml(Lk, z3.Select(MListDT.items(Pj), k))))))))
+        some_empty = z3.Exists([k], z3.And(0 <= k, k < K, MListDT.len(Lk) <= 0))
+        ex.assume((P.n == 0) == some_empty)
+        for tag_, want in (("F", False), ("T", True)):
+            pick = z3.Function(fresh_name("pick" + tag_), z3.IntSort(), MK)
+            lit = (lambda x: z3.Not(ev(x))) if not want else ev
+            ex.assume(z3.ForAll([k], z3.Implies(z3.And(0 <= k, k < K, MListDT.len(Lk) >= 1),
+                                                z3.And(mem_ml(Lk, pick(k)), z3.Implies(any_ml(Lk, lit), lit(pick(k)))))))
+            ex.assume(z3.Implies(z3.Not(some_empty), z3.Exists([j], z3.And(0 <= j, j < P.n,
+                                 z3.ForAll([k], z3.Implies(z3.And(0 <= k, k < K), z3.Select(MListDT.items(Pj), k) == pick(k)))))))
+        return P
+    return product
+
+
+class Distribute(NormalForm):
+    """the distributive branch: cnf of a MarkerUnion / dnf of a MultiMarker"""
+    assumed_cases = []
+
+    def __init__(self, th, which):
+        super().__init__(th, which)
+        self.key = self.target + "@distributive"
+        self.outer = "MarkerUnion" if which == "cnf" else "MultiMarker"        # class of the input handled by this branch
+        self.inner = "MultiMarker" if which == "cnf" else "MarkerUnion"        # class whose members are spread
+
+    def cases(self, th):
+        m = th.shape.fresh("marker")
+        yield self.outer, [m], [is_cls(m.term, self.outer)]
+
+    # comprehension 0: [cnf(m) for m in marker.markers] - NormalForm.comp
+    # comprehension 1: [m.markers if isinstance(m, Inner) else [m] for m in cnf_markers]
+    def comp_lists(self, st):
+        acc = st.loc("__acc")
+        src = st.loc(self.which + "_markers")
+        i = z3.Int(fresh_name("li"))
+        si = at(src, i)
+        li = z3.Select(acc.arr, i)
+        inner_all = all_ml if self.inner == "MultiMarker" else any_ml
+        rng = z3.And(0 <= i, i < st.k)
+        return [("len", acc.n == st.k),
+                ("lengths", z3.ForAll([i], z3.Implies(rng, MListDT.len(li) >= 0))),
+                ("pointwise.ev", z3.ForAll([i], z3.Implies(rng, inner_all(li, ev) == ev(si)))),
+                ("pointwise.uses", z3.ForAll([i], z3.Implies(rng, z3.Implies(any_ml(li, uses), uses(si)))))]
+
+    # comprehension 2: [Outer.of(*c) for c in itertools.product(*sub_marker_lists)]
+    def comp_product(self, st):
+        acc = st.loc("__acc")
+        P = st.seqs
+        j = z3.Int(fresh_name("qj"))
+        pj = z3.Select(P.arr, j)
+        outer_any = any_ml if self.outer == "MarkerUnion" else all_ml
+        rng = z3.And(0 <= j, j < st.k)
+        return [("len", acc.n == st.k),
+                ("pointwise.ev", z3.ForAll([j], z3.Implies(rng, ev(at(acc, j)) == outer_any(pj, ev)))),
+                ("pointwise.uses", z3.ForAll([j], z3.Implies(rng, z3.Implies(uses(at(acc, j)), any_ml(pj, uses)))))]
+
+
 class Intersection(Contract):
     target = U + "intersection"
 
@@ -566,8 +683,10 @@ def c07_contracts(th):
 
 
 def all_contracts(th):
+    th.mlshape = getattr(th, "mlshape", None) or MListShape(th)
     cs = [FlattenItems(th), Of(th, "MultiMarker"), Of(th, "MarkerUnion"), Simplify(th, "MultiMarker"), Simplify(th, "MarkerUnion")] + c12_contracts(th) + c02_contracts(th) + c07_contracts(th)
-    return {c.target: c for c in cs}
+    cs += [Distribute(th, "cnf"), Distribute(th, "dnf")]
+    return {getattr(c, "key", c.target): c for c in cs}
 
 
 def install(th, contracts):
@@ -583,6 +702,8 @@ def install(th, contracts):
     for kind, q in (("MultiMarker", MM), ("MarkerUnion", MU)):
         pass
     th.method_contracts["of"] = None
+    th.mlshape = MListShape(th)
+    th.product_contract = product_contract(th)
 
 
 def loop_specs(th):
@@ -599,6 +720,12 @@ def loop_specs(th):
     # cnf: ordinals 0,1,2 = the three comprehensions of the MarkerUnion branch (assumed), 3 = the MultiMarker branch; dnf dually
     specs[(U + "cnf", 3)] = (L, [LoopSpec({"__acc": L}, nf_c.comp)])
     specs[(U + "dnf", 3)] = (L, [LoopSpec({"__acc": L}, nf_d.comp)])
+    for which, nf in (("cnf", nf_c), ("dnf", nf_d)):
+        d = Distribute(th, which)
+        ML = ListS(th.mlshape)
+        specs[(U + which, 0)] = (L, [LoopSpec({"__acc": L}, nf.comp)])
+        specs[(U + which, 1)] = (ML, [LoopSpec({"__acc": ML}, d.comp_lists)])
+        specs[(U + which, 2)] = (L, [LoopSpec({"__acc": L}, d.comp_product)])
     specs[(U + "union", 1)] = (L, [LoopSpec({"__acc": L}, UnionFn.filt)])
     specs[(U + "union", 2)] = LoopSpec({"unnormalized": th.shape}, UnionFn.unwrap)
     for kind in ("MultiMarker", "MarkerUnion"):
